@@ -130,6 +130,9 @@ def step (_ : Unit) (line : String) : Unit × String :=
     | "J" :: "key" :: h :: res => match parseHex h with
       | some s => boolStr (specKeyStr s == " ".intercalate res)
       | none => "bad-op"
+    | "J" :: "keyfile" :: h :: res => match parseHex h with
+      | some s => boolStr ((if s.isEmpty then "empty-file" else specKeyStr (Spec.rstrip s)) == " ".intercalate res)
+      | none => "bad-op"
     | ["J", "sha1len", n, d] => match n.toNat?, parseHex d with
       | some k, some d => boolStr (Spec.be64 (8 * k % 2 ^ 64) == d)
       | _, _ => "bad-op"
